@@ -164,7 +164,18 @@ impl POracleTable {
         let text = l[2].as_str().unwrap();
         let e = match l[1].as_atom() {
             Some("q") => {
-                let ans = match Query::new(&python(), text) {
+                // (tree-sitter 0.24.7's Rust binding itself panics while building the error for some texts: treat that
+                // as the rejection it was about to report; `real_parse` sees the same panic through the library)
+                let q = std::panic::catch_unwind(std::panic::AssertUnwindSafe(|| Query::new(&python(), text)));
+                let q = match q {
+                    Ok(q) => q,
+                    Err(_) => {
+                        let e = sexp::tagged("q", vec![l[2].clone(), sexp::tagged("binding-panic", vec![])]);
+                        self.entries.insert(e.to_text(), e);
+                        return true;
+                    }
+                };
+                let ans = match q {
                     Ok(q) => {
                         let quants: Vec<_> = if q.pattern_count() > 0 { q.capture_quantifiers(0).to_vec() } else { vec![] };
                         let caps: Vec<Sexp> = q.capture_names().iter().enumerate().map(|(i, n)| sexp::list(vec![sexp::st(n), crate::astx::quant(quants.get(i).copied().unwrap_or(tree_sitter::CaptureQuantifier::Zero))])).collect();
@@ -180,6 +191,23 @@ impl POracleTable {
         };
         self.entries.insert(e.to_text(), e);
         true
+    }
+}
+
+/// texts on which loading is known to panic inside the dependency (see known_findings.json)
+pub const KNOWN_FINDING_INPUTS: &[&str] = &["nosuchfield: (identifier) @x { }"];
+
+/// the model's outcome when tree-sitter's `Query::new` does not return (binding panic recorded in the oracle table)
+pub fn is_binding_panic(model: &Sexp) -> bool {
+    model.tag() == Some("panic") && model.as_list().and_then(|l| l.get(1)).and_then(|x| x.as_str()) == Some("tree_sitter::Query::new")
+}
+
+/// signature of a loading panic: the known upstream defect is named as such, everything else is generic
+pub fn load_panic_signature(prop: &str, model: &Sexp) -> String {
+    if is_binding_panic(model) {
+        format!("{} loading panics inside tree_sitter::Query::new (tree-sitter 0.24.7 Rust binding: query error at offset 0 of a stanza query)", prop)
+    } else {
+        format!("{} loading panics (model: {})", prop, model.tag().unwrap_or("?"))
     }
 }
 
@@ -302,6 +330,16 @@ pub fn run(rep: &mut Report, tier: &str, seed: u64) {
     let mut drv = Driver::spawn();
     let root = Rng::new(seed);
     let pool = pool();
+    // inputs of the known findings of this property (known_findings.json) are always run
+    for text in KNOWN_FINDING_INPUTS {
+        let real = real_parse(text);
+        let model = model_parse(&mut drv, text);
+        rep.case(text, false);
+        rep.count("known-finding-inputs");
+        if real.is_err() {
+            rep.fail("impl-panic", &load_panic_signature("C07", &model), true, json!({"text": text, "model": model.pretty()}));
+        }
+    }
     for ci in 0..n {
         let mut r = root.fork(ci as u64);
         let opts = Opts { fragment: false, fault_pct: 0, max_stanzas: 4, allow_print: true, universal: r.chance(1, 4), probe: r.chance(1, 5), scoped_heavy: r.chance(1, 4), keywordish_names: true, static_fault: 0 };
@@ -317,7 +355,7 @@ pub fn run(rep: &mut Report, tier: &str, seed: u64) {
             // malformed stream: the model must predict the parser's verdict (AST, or error variant + payload + location)
             rep.count("damaged");
             match real {
-                Err(()) => rep.fail("impl-panic", "C07 the parser panics on a damaged text", true, json!({"text": text, "model": model.pretty()})),
+                Err(()) => rep.fail("impl-panic", &load_panic_signature("C07", &model), true, json!({"text": text, "model": model.pretty()})),
                 Ok(Ok(file)) => {
                     rep.count("damaged:still-parses");
                     let want = sexp::tagged("parsed", vec![crate::astx::file(&file)]);
@@ -345,7 +383,7 @@ pub fn run(rep: &mut Report, tier: &str, seed: u64) {
             rep.sample(json!({"text": text}));
         }
         match real {
-            Err(()) => rep.fail("impl-panic", "C07 the parser panics on a generated text", true, json!({"text": text, "model": model.pretty()})),
+            Err(()) => rep.fail("impl-panic", &load_panic_signature("C07", &model), true, json!({"text": text, "model": model.pretty()})),
             Ok(Ok(file)) => {
                 rep.count("parsed");
                 let want = sexp::tagged("parsed", vec![crate::astx::file(&file)]);
